@@ -122,7 +122,7 @@ proof!(8, fn c15_shm_pool_history() {
 });
 
 /// resize_hint: the hinted configuration admits the request and never shrinks
-proof!(4, fn c15_shm_pool_resize_hint() {
+proof!(8, fn c15_shm_pool_resize_hint() {
     let mut payload = Block::<128>::new();
     let mut mgmt = Block::<MGMT>::new();
     let bl = any_layout(16, 3);
